@@ -11,7 +11,9 @@
 (* One action per shared-memory step of the code:                          *)
 (*   Get        get_temporary_stack(): test temp_stack, first.load()       *)
 (*   Find       one iteration of find_unused(): CAS on in_use              *)
-(*   New        create_new(): node constructor pushes with CAS on first    *)
+(*   NewLoad    create_new(): node constructor reads first (next_ = ...)   *)
+(*   PushCas    ... and publishes itself with compare-exchange on first,   *)
+(*              retrying with the refreshed expected value on failure      *)
 (*   InitDtor   ~temporary_stack_initializer(): clear()                    *)
 (*   Exit       thread ends: exit detector clears                          *)
 (*   ProgramExit  nifty counter reaches zero in the main thread            *)
@@ -21,26 +23,33 @@
 (* acquired a stack, not only in threads that created one), FixNifty       *)
 (* (stacks are destroyed at exit even if the main thread has none),        *)
 (* AtomicAdopt (in_use is taken with one compare-exchange; FALSE = load    *)
-(* then store, a plausible wrong refactoring).                             *)
+(* then store, a plausible wrong refactoring), RefreshExpected (a failed    *)
+(* push compare-exchange refreshes next_ with the head it found; FALSE =   *)
+(* the link keeps the value read before the loop, the retry publishes a    *)
+(* node whose next_ is stale).  The atomic steps are exactly the events    *)
+(* the trace specification spec/contract/TempListTrace.tla validates       *)
+(* against recorded executions of the real code.                           *)
 (***************************************************************************)
 EXTENDS Naturals, Sequences, FiniteSets, TLC
-CONSTANTS Threads, Main, MaxNodes, MaxOps, FixUninit, FixDetector, FixNifty, AtomicAdopt
+CONSTANTS Threads, Main, MaxNodes, MaxOps, FixUninit, FixDetector, FixNifty, AtomicAdopt, RefreshExpected
 NULL == 0
 Nodes == 1..MaxNodes
 VARIABLES first, next, inuse, created, destroyed,    \* the global list
-          ts, det, pc, cur, alive, ops, sawfree      \* per thread
-vars == <<first, next, inuse, created, destroyed, ts, det, pc, cur, alive, ops, sawfree>>
+          ts, det, pc, cur, alive, ops, sawfree,     \* per thread
+          nx, lnk                                    \* push loop: expected head, value that will be linked as next_
+vars == <<first, next, inuse, created, destroyed, ts, det, pc, cur, alive, ops, sawfree, nx, lnk>>
 Init == /\ first = NULL /\ next = [n \in Nodes |-> NULL] /\ inuse = [n \in Nodes |-> FALSE] /\ created = 0
         /\ destroyed = FALSE
         /\ ts = [t \in Threads |-> NULL] /\ det = [t \in Threads |-> FALSE]
         /\ pc = [t \in Threads |-> "idle"] /\ cur = [t \in Threads |-> NULL]
         /\ alive = [t \in Threads |-> TRUE] /\ ops = [t \in Threads |-> 0] /\ sawfree = [t \in Threads |-> FALSE]
+        /\ nx = [t \in Threads |-> NULL] /\ lnk = [t \in Threads |-> NULL]
 
 Get(t) == /\ alive[t] /\ pc[t] = "idle" /\ ops[t] < MaxOps /\ ~destroyed
           /\ ops' = [ops EXCEPT ![t] = @ + 1]
           /\ IF ts[t] # NULL THEN UNCHANGED <<pc, cur>>
              ELSE pc' = [pc EXCEPT ![t] = "find"] /\ cur' = [cur EXCEPT ![t] = first]        \* first.load()
-          /\ UNCHANGED <<first, next, inuse, created, destroyed, ts, det, alive, sawfree>>
+          /\ UNCHANGED <<first, next, inuse, created, destroyed, ts, det, alive, sawfree, nx, lnk>>
 
 Adopt(t, n) == /\ inuse' = [inuse EXCEPT ![n] = TRUE] /\ ts' = [ts EXCEPT ![t] = n]
                /\ det' = IF FixDetector THEN [det EXCEPT ![t] = TRUE] ELSE det
@@ -54,37 +63,46 @@ Find(t) == /\ pc[t] = "find"
                    ELSE \* load ...
                         IF ~inuse[cur[t]] THEN pc' = [pc EXCEPT ![t] = "store"] /\ UNCHANGED <<inuse, ts, cur, det, sawfree>>
                         ELSE cur' = [cur EXCEPT ![t] = next[cur[t]]] /\ UNCHANGED <<inuse, ts, pc, det, sawfree>>
-           /\ UNCHANGED <<first, next, created, destroyed, alive, ops>>
+           /\ UNCHANGED <<first, next, created, destroyed, alive, ops, nx, lnk>>
 \* ... then store (only when AtomicAdopt = FALSE)
 Store(t) == /\ pc[t] = "store" /\ Adopt(t, cur[t])
-            /\ UNCHANGED <<first, next, created, destroyed, cur, alive, ops, sawfree>>
+            /\ UNCHANGED <<first, next, created, destroyed, cur, alive, ops, sawfree, nx, lnk>>
 
-New(t) == /\ pc[t] = "new" /\ created < MaxNodes
-          /\ LET n == created + 1 IN
-             /\ created' = n /\ next' = [next EXCEPT ![n] = first] /\ first' = n    \* CAS loop on first (atomic push)
-             /\ inuse' = [inuse EXCEPT ![n] = TRUE] /\ ts' = [ts EXCEPT ![t] = n]
-          /\ det' = [det EXCEPT ![t] = TRUE] /\ pc' = [pc EXCEPT ![t] = "idle"]
-          /\ UNCHANGED <<destroyed, cur, alive, ops, sawfree>>
+NewLoad(t) == /\ pc[t] = "new" /\ created < MaxNodes
+              /\ pc' = [pc EXCEPT ![t] = "push"] /\ nx' = [nx EXCEPT ![t] = first] /\ lnk' = [lnk EXCEPT ![t] = first]
+              /\ UNCHANGED <<first, next, inuse, created, destroyed, ts, det, cur, alive, ops, sawfree>>
+PushCas(t) == /\ pc[t] = "push"
+              /\ IF first = nx[t]
+                 THEN /\ created < MaxNodes
+                      /\ LET n == created + 1 IN
+                         /\ created' = n /\ next' = [next EXCEPT ![n] = lnk[t]] /\ first' = n
+                         /\ inuse' = [inuse EXCEPT ![n] = TRUE] /\ ts' = [ts EXCEPT ![t] = n]
+                      /\ det' = [det EXCEPT ![t] = TRUE] /\ pc' = [pc EXCEPT ![t] = "idle"]
+                      /\ UNCHANGED <<nx, lnk>>
+                 ELSE /\ nx' = [nx EXCEPT ![t] = first]
+                      /\ lnk' = IF RefreshExpected THEN [lnk EXCEPT ![t] = first] ELSE lnk
+                      /\ UNCHANGED <<first, next, inuse, created, ts, det, pc>>
+              /\ UNCHANGED <<destroyed, cur, alive, ops, sawfree>>
 
 InitDtor(t) == /\ alive[t] /\ pc[t] = "idle" /\ ts[t] # NULL /\ ops[t] < MaxOps /\ ~destroyed
                /\ ops' = [ops EXCEPT ![t] = @ + 1]
                /\ inuse' = [inuse EXCEPT ![ts[t]] = FALSE]
                /\ ts' = IF FixUninit THEN [ts EXCEPT ![t] = NULL] ELSE ts
-               /\ UNCHANGED <<first, next, created, destroyed, det, pc, cur, alive, sawfree>>
+               /\ UNCHANGED <<first, next, created, destroyed, det, pc, cur, alive, sawfree, nx, lnk>>
 
 Exit(t) == /\ alive[t] /\ pc[t] = "idle" /\ t # Main
            /\ alive' = [alive EXCEPT ![t] = FALSE]
            /\ IF det[t] /\ ts[t] # NULL THEN inuse' = [inuse EXCEPT ![ts[t]] = FALSE] ELSE UNCHANGED inuse
-           /\ UNCHANGED <<first, next, created, destroyed, ts, det, pc, cur, ops, sawfree>>
+           /\ UNCHANGED <<first, next, created, destroyed, ts, det, pc, cur, ops, sawfree, nx, lnk>>
 
 \* the main thread runs the static destructors after all other threads have ended
 ProgramExit == /\ ~destroyed /\ \A t \in Threads \ {Main} : ~alive[t]
                /\ pc[Main] = "idle"
                /\ destroyed' = (FixNifty \/ ts[Main] # NULL)
                /\ alive' = [alive EXCEPT ![Main] = FALSE]
-               /\ UNCHANGED <<first, next, inuse, created, ts, det, pc, cur, ops, sawfree>>
+               /\ UNCHANGED <<first, next, inuse, created, ts, det, pc, cur, ops, sawfree, nx, lnk>>
 
-Next == (\E t \in Threads : Get(t) \/ Find(t) \/ Store(t) \/ New(t) \/ InitDtor(t) \/ Exit(t)) \/ ProgramExit
+Next == (\E t \in Threads : Get(t) \/ Find(t) \/ Store(t) \/ NewLoad(t) \/ PushCas(t) \/ InitDtor(t) \/ Exit(t)) \/ ProgramExit
 Spec == Init /\ [][Next]_vars
 
 \* C14: no two live threads use the same stack
@@ -95,6 +113,11 @@ OwnedInUse == \A t \in Threads : (alive[t] /\ ts[t] # NULL) => inuse[ts[t]]
 Reclaimed == destroyed \/ \A n \in 1..created : inuse[n] => \E t \in Threads : alive[t] /\ (ts[t] = n \/ pc[t] # "idle")
 \* everything is freed at program exit
 FreedAtExit == (\A t \in Threads : ~alive[t]) => (created = 0 \/ destroyed)
+\* every stack that was ever created can be found from the list head (so it can be adopted and is destroyed at exit)
+RECURSIVE Reach(_, _)
+Reach(n, fuel) == IF n = NULL \/ fuel = 0 THEN {} ELSE {n} \cup Reach(next[n], fuel - 1)
+ListComplete == destroyed \/ Reach(first, MaxNodes + 1) = 1..created
+NotWitnessPushRetry == ~(\E t \in Threads : pc[t] = "push" /\ nx[t] # first)
 NotWitnessAdoption == ~(\E t \in Threads : alive[t] /\ ts[t] # NULL /\ \E u \in Threads : ~alive[u] /\ ts[u] = ts[t])
 NotWitnessRace == ~(\E a, b \in Threads : a # b /\ pc[a] = "find" /\ pc[b] = "find" /\ cur[a] = cur[b] /\ cur[a] # NULL)
 =============================================================================
